@@ -914,6 +914,37 @@ def t_call(a, b):
 '''
 
 
+def exhaustive_bodies() -> list[str]:
+    """every function body over a small grammar of control-flow shapes (seed-independent stratum):
+    [pre] + one of {nothing, if, if/else, if/elif, if/elif/else} with every combination of four branch bodies + [post]"""
+    import itertools
+
+    branch = ["return x", "t = 2 * x", "y = 2 * x", "t = 2 * x\nreturn t"]
+    pres = ["", "t = y"]
+    posts = ["return y", "return t", ""]
+    conds = ["x > 0", "x < -1"]
+    shapes: list[list[str]] = [[]]
+    for b1 in branch:
+        shapes.append([("if " + conds[0], b1)])
+    for b1, b2 in itertools.product(branch, repeat=2):
+        shapes.append([("if " + conds[0], b1), ("else", b2)])
+        shapes.append([("if " + conds[0], b1), ("elif " + conds[1], b2)])
+    for b1, b2, b3 in itertools.product(branch, repeat=3):
+        shapes.append([("if " + conds[0], b1), ("elif " + conds[1], b2), ("else", b3)])
+    out = []
+    for pre, shape, post in itertools.product(pres, shapes, posts):
+        lines = [pre] if pre else []
+        for head, body in shape:
+            lines.append(head + ":")
+            lines += ["    " + l for l in body.split("\n")]
+        if post:
+            lines.append(post)
+        if not lines:
+            continue
+        out.append("\n".join("    " + l for l in lines))
+    return out
+
+
 def template_names() -> list[str]:
     return [n.name for n in ast.parse(TEMPLATES).body if isinstance(n, ast.FunctionDef)]
 
